@@ -308,14 +308,22 @@ def _format_default_value(
 ) -> Optional[str]:
     if not input_value.has_default_value:
         return None
+
+    # Circular import
+    from ..lang import print_ast
+    from ..utilities.ast_node_from_value import ast_node_from_value
+
     dv = input_value.default_value
-    if isinstance(dv, bool):
-        return str(dv).lower()
-    elif dv is None:
-        return "null"
-    elif isinstance(dv, str):
+    type_ = input_value.type
+    if isinstance(type_, NonNullType):
+        type_ = type_.type
+
+    if isinstance(dv, str) and isinstance(type_, ScalarType):
         return '"%s"' % dv
-    return json.dumps(dv)
+
+    # The default value is exposed as GraphQL syntax (enum names, lists,
+    # input objects...), not as JSON.
+    return print_ast(ast_node_from_value(dv, input_value.type))
 
 
 __InputValue__ = ObjectType(
